@@ -13,20 +13,25 @@ REPO=/repo
 run_checks() { # <seed dir> <tier> <props...>  -> writes detection.json, prints summary
   local sd=$1 tier=$2; shift 2
   local res="{"
-  if ! git -C $REPO diff --quiet; then echo "refusing: /repo has uncommitted changes" >&2; return 2; fi
-  git -C $REPO apply "$sd/patch.diff" || { echo "patch does not apply to /repo HEAD" >&2; return 2; }
+  local target=$REPO
+  if [ -n "${SEEDTEST_SCRATCH:-}" ]; then
+    # exploratory mode: leave /repo alone (a background run may be using it), use a scratch worktree
+    target=/tmp/sr-$$; git -C $REPO worktree remove --force $target 2>/dev/null; git -C $REPO worktree add -q --detach $target HEAD || return 2
+  fi
+  if ! git -C $target diff --quiet; then echo "refusing: $target has uncommitted changes" >&2; return 2; fi
+  git -C $target apply "$sd/patch.diff" || { echo "patch does not apply to HEAD" >&2; [ $target != $REPO ] && git -C $REPO worktree remove --force $target; return 2; }
   for p in "$@"; do
-    out=$("$VERIF/check" "$p" "$tier" 2>&1); code=$?
+    out=$(REPO=$target "$VERIF/check" "$p" "$tier" 2>&1); code=$?
     nv=$(echo "$out" | grep -c '^VIOLATION')
     cls=$(echo "$out" | grep -o 'violation class=[a-z0-9-]*' | sort | uniq -c | sort -rn | head -4 | awk '{print $3"("$1")"}' | sed 's/class=//' | tr '\n' ' ')
     echo "  $p $tier: exit=$code violations_printed=$nv classes: $cls"
     echo "$out" | grep -E "^  violation" | head -3 | cut -c1-400
     res="$res\"$p\": {\"tier\": \"$tier\", \"exit\": $code, \"violation_lines\": $nv, \"classes\": \"$cls\"},"
   done
-  git -C $REPO checkout -- . ; git -C $REPO clean -fdq
+  if [ $target = $REPO ]; then git -C $REPO checkout -- . ; git -C $REPO clean -fdq; else git -C $REPO worktree remove --force $target; fi
   # evidence files were rewritten by runs on a mutated tree: restore the committed ones
   git -C "$VERIF" checkout -- evidence 2>/dev/null
-  echo "${res%,}}" > "$sd/detection.$tier.json"
+  if [ $target = $REPO ]; then echo "${res%,}}" > "$sd/detection.$tier.json"; fi
 }
 
 if [ "${1:-}" = "--recheck" ]; then
